@@ -22,6 +22,7 @@ type genOpts struct {
 	guard   bool
 	deref   bool
 	rec     bool
+	modelRO bool // the generator must not write into the model it is handed
 }
 
 func reachSet(p *Program, entries []*ssa.Function) map[*ssa.Function]bool {
@@ -77,6 +78,29 @@ func runGenEngines(c *Check, o genOpts) map[*ssa.Function]bool {
 	c.Okf("BLOCK-KINDS", "scan", "-", "%d reachable repository functions scanned for functions that distinguish two or more block kinds: %d found and evaluated", len(in), c.Counts["block_walkers"])
 	c.Counts["goroutines_started_in_loops"] = goroutineLoopVars(c, "GOROUTINE-LOOPVAR", in)
 	c.Okf("GOROUTINE-LOOPVAR", "scan", "-", "%d reachable repository functions scanned for goroutines started in loops: %d found and evaluated", len(in), c.Counts["goroutines_started_in_loops"])
+	// errors of the generator's own functions (same packages as its entry points)
+	// are returned or tested with a failing branch: a nested failure that is logged
+	// and skipped leaves partial output behind a success
+	{
+		pk := map[string]bool{}
+		for _, e := range o.entries {
+			pk[fnPkgPath(e)] = true
+		}
+		pk[repoMod+"/pkg/cmdutils"] = true // the visitors, labelers and writers the diagram generators share
+		var own []*ssa.Function
+		for f := range in {
+			if pk[fnPkgPath(f)] && !p.isGeneratedFile(p.fnFile(f)) {
+				own = append(own, f)
+			}
+		}
+		sort.Slice(own, func(i, j int) bool { return fnName(own[i]) < fnName(own[j]) })
+		if o.modelRO {
+			c.Counts["model_writes"] = modelWrites(c, "MODEL-READ-ONLY", own)
+			c.Okf("MODEL-READ-ONLY", "scan", "-", "%d functions of the generator's packages scanned for writes into model objects they did not create: %d found", len(own), c.Counts["model_writes"])
+		}
+		c.Counts["generator_error_calls"] = errFlow(c, "ERR-FLOW", own, true)
+		c.Okf("ERR-FLOW", "scan", "-", "%d functions of the generator's packages scanned for calls of repository functions that return an error: %d found and judged", len(own), c.Counts["generator_error_calls"])
+	}
 	nDead := deadErrors(c, "DEAD-ERROR", in)
 	c.Counts["dead_error_assignments"] = nDead
 	c.Okf("DEAD-ERROR", "scan", "-", "%d reachable repository functions scanned for error results bound to a variable that is never read: %d found", len(in), nDead)
@@ -1534,5 +1558,82 @@ func pathCutsets(c *Check, rule string, sel func(pkgPath string) bool) int {
 		})
 	}
 	c.Okf(rule, "scan", "-", "%d functions scanned for strings.Trim* with a constant cutset: %d found and judged", scanned, n)
+	return n
+}
+
+// modelWrites (MODEL-READ-ONLY): a generator is handed the model to read. A
+// store into a field of a pkg/sysl message, an update of a map or an append to a
+// list held in one, whose target belongs to an object the function did not
+// create (it is reached from a parameter, a captured variable or a package
+// variable), changes the model for every later user: the next generator run in
+// the same process, the next view of the same command. Every such write in the
+// generator's own packages is an obligation.
+func modelWrites(c *Check, rule string, own []*ssa.Function) int {
+	p := c.P
+	n := 0
+	var isModelField func(addr ssa.Value) (string, bool)
+	isModelField = func(addr ssa.Value) (string, bool) {
+		for d := 0; d < 6 && addr != nil; d++ {
+			switch x := addr.(type) {
+			case *ssa.Phi:
+				// `m := obj.Attrs; if m == nil { m = map…{} }`: the model's map on one edge
+				for _, e := range x.Edges {
+					if _, isPhi := e.(*ssa.Phi); isPhi {
+						continue
+					}
+					if n, ok := isModelField(e); ok {
+						return n, true
+					}
+				}
+				return "", false
+			case *ssa.FieldAddr:
+				if own, fld, _, ok := fieldOfAddr(x); ok && own != nil && own.Obj().Pkg() != nil && own.Obj().Pkg().Path() == syslPkg {
+					return own.Obj().Name() + "." + fld, true
+				}
+				addr = x.X
+			case *ssa.IndexAddr:
+				addr = x.X
+			case *ssa.UnOp:
+				addr = x.X
+			default:
+				return "", false
+			}
+		}
+		return "", false
+	}
+	for _, f := range own {
+		k := map[string]int{}
+		eachInstr(f, func(_ *ssa.BasicBlock, i ssa.Instruction) {
+			var target ssa.Value
+			switch x := i.(type) {
+			case *ssa.Store:
+				target = x.Addr
+			case *ssa.MapUpdate:
+				target = x.Map
+			default:
+				return
+			}
+			name, ok := isModelField(target)
+			if !ok {
+				return
+			}
+			foreign := false
+			for _, r := range rootsOf(target) {
+				if r.Kind == rParam || r.Kind == rFree || r.Kind == rGlobal {
+					foreign = true
+				}
+			}
+			if !foreign {
+				return
+			}
+			n++
+			k[name]++
+			key := fmt.Sprintf("%s|writes %s", fnName(f), name)
+			if k[name] > 1 {
+				key = fmt.Sprintf("%s#%d", key, k[name])
+			}
+			c.Flagf(rule, key, p.pos(i.Pos()), "the generator writes into %s of a model object it was handed (not one it created): the model is changed for the next run or view in the same process", name)
+		})
+	}
 	return n
 }
